@@ -14,7 +14,7 @@ use cw20_ics20::msg::{
     AllowMsg, AllowedResponse, ChannelResponse, ConfigResponse, ExecuteMsg, InitMsg,
     ListAllowedResponse, QueryMsg, TransferMsg,
 };
-use cw20_ics20::state::{ChannelState, CHANNEL_STATE};
+use cw20_ics20::state::ChannelState;
 use cw_controllers::AdminResponse;
 use mc::store::MemStore;
 use mc::world::{addr_cached, ContractVt, Instance, SentPacket, TxOut, World};
@@ -42,6 +42,21 @@ pub const G2: u8 = 3;
 pub const X: u8 = 4;
 /// bank denominations; the last one contains a '/' itself (token-factory / path style) and its
 /// first segment is another denomination of the list
+/// reference value for "no governance"
+pub const NOBODY: u8 = 255;
+/// UpdateAdmin targets that are not addresses: the empty string and garbage
+pub const ADMIN_EMPTY: u8 = 250;
+pub const ADMIN_GARBAGE: u8 = 251;
+pub fn admin_string(to: u8) -> String {
+    match to {
+        ADMIN_EMPTY => String::new(),
+        ADMIN_GARBAGE => "not-an-address".into(),
+        i => actor(i),
+    }
+}
+pub fn gov_name(g: u8) -> String {
+    ACTORS.get(g as usize).map(|s| s.to_string()).unwrap_or_else(|| "<nobody>".into())
+}
 pub const NATIVES: [&str; 4] = ["ucosm", "ustake", "uusd", "uusd/vault-7"];
 
 pub fn ics() -> String {
@@ -333,7 +348,12 @@ impl std::fmt::Debug for Act {
             Act::Ack { pkt, kind, fault } => write!(f, "Ack{{packet #{pkt} of the sorted outbox, {:?}, refund_fault={:?}}}", kind, fault),
             Act::Timeout { pkt, fault } => write!(f, "Timeout{{packet #{pkt} of the sorted outbox, refund_fault={:?}}}", fault),
             Act::Allow { by, token, limit } => write!(f, "Allow{{by={}, token=T{}, gas_limit={:?}}}", who(by), token + 1, limit),
-            Act::UpdateAdmin { by, to } => write!(f, "UpdateAdmin{{by={}, new={}}}", who(by), who(to)),
+            Act::UpdateAdmin { by, to } => write!(
+                f,
+                "UpdateAdmin{{by={}, new={}}}",
+                who(by),
+                if (*to as usize) < ACTORS.len() { who(to).to_string() } else { format!("{:?}", admin_string(*to)) }
+            ),
             Act::Migrate { limit } => write!(f, "Migrate{{default_gas_limit={:?}}}", limit),
             Act::Advance => write!(f, "AdvanceBlock"),
             Act::Donate { user, tok, amt } => write!(
@@ -678,7 +698,14 @@ impl Hash for Key<'_> {
         }
         0xa5u8.hash(h);
         let ics = ics();
-        let pre = ns_prefix("channel_state");
+        // rows of the channel books: any namespace ending in "channel_state" (robust against a rename)
+        let is_books = |k: &[u8]| -> bool {
+            if k.len() < 2 {
+                return false;
+            }
+            let n = ((k[0] as usize) << 8) | k[1] as usize;
+            k.len() >= 2 + n && k[2..2 + n].ends_with(b"channel_state")
+        };
         for (a, c) in &w.contracts {
             a.hash(h);
             c.vt.name.hash(h);
@@ -686,7 +713,7 @@ impl Hash for Key<'_> {
             let mask = self.cfg.mask_total_sent && *a == ics;
             for (k, v) in c.store.0.iter() {
                 k.hash(h);
-                if mask && k.starts_with(&pre) {
+                if mask && is_books(k) {
                     match from_json::<ChannelState>(v) {
                         Ok(cs) => cs.outstanding.u128().hash(h),
                         Err(_) => v.hash(h),
@@ -949,11 +976,12 @@ impl Ics20Model {
             }
         }
         if cfg.props.c18 {
-            let gov = actor(r.gov);
-            if o.admin.as_deref() != Some(gov.as_str()) {
+            let gov = if r.gov == NOBODY { String::new() } else { actor(r.gov) };
+            let want_admin = if r.gov == NOBODY { None } else { Some(gov.as_str()) };
+            if o.admin.as_deref() != want_admin {
                 out.push(Violation::new(
                     "C18.admin_query_eq_reference",
-                    format!("Admin query {:?}, reference governance {}", o.admin.as_deref().map(name_of), ACTORS[r.gov as usize]),
+                    format!("Admin query {:?}, reference governance {}", o.admin.as_deref().map(name_of), gov_name(r.gov)),
                 ));
             }
             match &o.config {
@@ -962,7 +990,7 @@ impl Ics20Model {
                     if *g != gov {
                         out.push(Violation::new(
                             "C18.config_gov_eq_reference",
-                            format!("Config.gov_contract {}, reference {}", name_of(g), ACTORS[r.gov as usize]),
+                            format!("Config.gov_contract {}, reference {}", name_of(g), gov_name(r.gov)),
                         ));
                     }
                     if *dflt != r.default {
@@ -1098,69 +1126,72 @@ impl Ics20Model {
     }
 
     fn build_old(&self, w: &mut World, old: &Old) -> Result<(), String> {
+        // The storage of a really deployed older release, written byte by byte under the LITERAL keys
+        // those releases used (cw-storage-plus encoding: 2-byte length-prefixed namespace, 2-byte
+        // length-prefixed leading key parts, last part raw) — never through the current crate's
+        // constants, so that a renamed namespace or changed layout in the current code shows up.
         let cfg = &self.cfg;
         let ics = ics();
+        w.contracts.insert(
+            ics.clone(),
+            Instance {
+                vt: ics_vt(),
+                store: MemStore::new(),
+                wasm_admin: None,
+            },
+        );
+        let inst = w.contracts.get_mut(&ics).unwrap();
+        let js = |v: serde_json::Value| v.to_string().into_bytes();
         if old.v1 {
-            // empty store, then the keys of the 0.11/0.12-alpha layout byte by byte
-            w.contracts.insert(
-                ics.clone(),
-                Instance {
-                    vt: ics_vt(),
-                    store: MemStore::new(),
-                    wasm_admin: None,
-                },
-            );
-            let inst = w.contracts.get_mut(&ics).unwrap();
-            let v1cfg = serde_json::json!({"default_timeout": DEFAULT_TIMEOUT, "gov_contract": actor(G)});
-            inst.store.set(b"ics20_config", v1cfg.to_string().as_bytes());
+            // 0.11 / 0.12-alpha: config = {default_timeout, gov_contract}; no admin item, no allow list
+            inst.store.set(b"ics20_config", &js(serde_json::json!({"default_timeout": DEFAULT_TIMEOUT, "gov_contract": actor(G)})));
         } else {
-            let msg = InitMsg {
-                default_timeout: DEFAULT_TIMEOUT,
-                gov_contract: actor(G),
-                allowlist: cfg
-                    .allow_init
-                    .iter()
-                    .map(|(t, l)| AllowMsg {
-                        contract: tok_addr(*t),
-                        gas_limit: *l,
-                    })
-                    .collect(),
-                default_gas_limit: cfg.default_gas,
-            };
-            let o = w.instantiate(ics_vt(), &ics, &actor(X), &to_json_vec(&msg).unwrap(), &[]);
-            o.res.map_err(|e| format!("instantiate ics20: {e}"))?;
+            inst.store.set(
+                b"ics20_config",
+                &js(serde_json::json!({"default_timeout": DEFAULT_TIMEOUT, "default_gas_limit": cfg.default_gas})),
+            );
+            inst.store.set(b"admin", &js(serde_json::json!(actor(G))));
+            for (t, l) in &cfg.allow_init {
+                let mut k = ns_prefix("allow_list");
+                k.extend_from_slice(tok_addr(*t).as_bytes());
+                inst.store.set(&k, &js(serde_json::json!({"gas_limit": l})));
+            }
         }
         // (the real 0.13.0 -> current migration supports a single channel only and refuses more)
         for ch in cfg.chans() {
-            driver::open_channel(w, &ics, ch)?;
+            let mut k = ns_prefix("channel_info");
+            k.extend_from_slice(local_chan(ch).as_bytes());
+            inst.store.set(
+                &k,
+                &js(serde_json::json!({
+                    "id": local_chan(ch),
+                    "counterparty_endpoint": {"port_id": REMOTE_PORT, "channel_id": remote_chan(ch)},
+                    "connection_id": driver::CONNECTION,
+                })),
+            );
         }
-        let inst = w.contracts.get_mut(&ics).unwrap();
         cw2::set_contract_version(&mut inst.store, "crates.io:cw20-ics20", old.version).map_err(|e| e.to_string())?;
+        let state_key = |ch: u8, denom: &str| -> Vec<u8> {
+            let mut k = ns_prefix("channel_state");
+            let c = local_chan(ch);
+            k.extend_from_slice(&[(c.len() >> 8) as u8, (c.len() & 0xff) as u8]);
+            k.extend_from_slice(c.as_bytes());
+            k.extend_from_slice(denom.as_bytes());
+            k
+        };
         for (t, total) in &old.drained {
-            CHANNEL_STATE
-                .save(
-                    &mut inst.store,
-                    (&local_chan(cfg.first_chan), &t.denom()),
-                    &ChannelState {
-                        outstanding: Uint128::zero(),
-                        total_sent: Uint128::new(*total),
-                    },
-                )
-                .map_err(|e| e.to_string())?;
+            inst.store.set(
+                &state_key(cfg.first_chan, &t.denom()),
+                &js(serde_json::json!({"outstanding": "0", "total_sent": total.to_string()})),
+            );
         }
         let per_chan = [(cfg.first_chan, &old.counted), (cfg.first_chan + 1, &old.counted_b)];
         for (ch, list) in per_chan {
             for (t, x) in list {
-                CHANNEL_STATE
-                    .save(
-                        &mut inst.store,
-                        (&local_chan(ch), &t.denom()),
-                        &ChannelState {
-                            outstanding: Uint128::new(*x),
-                            total_sent: Uint128::new(*x),
-                        },
-                    )
-                    .map_err(|e| e.to_string())?;
+                inst.store.set(
+                    &state_key(ch, &t.denom()),
+                    &js(serde_json::json!({"outstanding": x.to_string(), "total_sent": x.to_string()})),
+                );
             }
         }
         for (u, t, x) in &old.inflight {
@@ -1922,7 +1953,7 @@ impl Model for Ics20Model {
                         if *by != r.gov {
                             v.push(Violation::new(
                                 "C18.allow_only_by_governance",
-                                format!("Allow by {} accepted, governance is {}", ACTORS[*by as usize], ACTORS[r.gov as usize]),
+                                format!("Allow by {} accepted, governance is {}", ACTORS[*by as usize], gov_name(r.gov)),
                             ));
                         } else {
                             allow_change_ok = true;
@@ -1945,7 +1976,7 @@ impl Model for Ics20Model {
                 }
             }
             Act::UpdateAdmin { by, to } => {
-                let out = w.execute_json(&actor(*by), &ics, &ExecuteMsg::UpdateAdmin { admin: actor(*to) }, &[]);
+                let out = w.execute_json(&actor(*by), &ics, &ExecuteMsg::UpdateAdmin { admin: admin_string(*to) }, &[]);
                 post = self.observe(&w, Some((&s.w, pre)));
                 ok = out.ok();
                 if !ok {
@@ -1957,13 +1988,13 @@ impl Model for Ics20Model {
                         if *by != r.gov {
                             v.push(Violation::new(
                                 "C18.update_admin_only_by_governance",
-                                format!("UpdateAdmin by {} accepted, governance is {}", ACTORS[*by as usize], ACTORS[r.gov as usize]),
+                                format!("UpdateAdmin by {} accepted, governance is {}", ACTORS[*by as usize], gov_name(r.gov)),
                             ));
                         } else {
                             gov_change_ok = true;
                         }
                     }
-                    r.gov = *to;
+                    r.gov = if (*to as usize) < ACTORS.len() { *to } else { NOBODY };
                 }
             }
             Act::Migrate { limit } => {
